@@ -422,6 +422,15 @@ def f_naming() -> List[Case]:
         m = Message("Scene", [Field(TRef(color, "shared.Color"), "c", 1), Field(TRef(point, "shared.Point"), "p", 2), Field(TRef(stamp, "shared.Stamp"), "t", 3), Field(TArray(TRef(point, "shared.Point"), 2), "ps", 4), Field(U(3), "z", 5)])
         p = Proto(f"imp_prefix_{tag}", [m], [Import(lib, None)], [("c.name_prefix", f'"{main_pre}"')] if main_pre else [])
         out.append(case_of(p.name, p, ("import", "prefix")))
+    # the imported file's name differs from its proto name; imported with and without `as`
+    for as_name in (None, "st"):
+        lvl = _e("Level", 3, [0, 2, 5])
+        stp = Alias("Stamp", I(40))
+        rd = Message("Reading", [Field(TRef(lvl), "level", 1), Field(TRef(stp), "at", 2)])
+        sens = Proto("sensors", [lvl, stp, rd], [], [], "sensor_types.bitproto")
+        q = as_name or "sensors"
+        m = Message("Station", [Field(TRef(lvl, f"{q}.Level"), "level", 1), Field(TRef(stp, f"{q}.Stamp"), "at", 2), Field(TRef(rd, f"{q}.Reading"), "last", 3), Field(TArray(TRef(lvl, f"{q}.Level"), 2), "levels", 4)])
+        out.append(case_of(f"imp_stem_{q}", Proto(f"imp_stem_{q}", [m], [Import(sens, as_name)]), ("import", "names")))
     tls = Message("TLSConfig", [Field(U(4), "version", 1), Field(TBase("bool"), "strict", 2)])
     http = Message("HTTPServer", [Field(TRef(tls), "tls", 1), Field(U(16), "port", 2)], nested=[tls])
     gps = Message("GPSFix", [Field(I(28), "lat", 1), Field(I(29), "lon", 2), Field(TRef(http), "server", 3)])
